@@ -36,12 +36,12 @@ reg('enum_proxy_authen_type', ['C16'], 'num_enum TryFrom/Into for ProxyAuthenTyp
 reg('enum_stop_ccn_code', ['C16'], 'StopCcnCode derive + CodeValue::{from,into,as_stop_ccn} over all 65536 codes', fn='num_enum derive StopCcnCode')
 reg('enum_cdn_code', ['C16'], 'CdnCode derive + CodeValue::{from,as_cdn} over all 65536 codes', fn='num_enum derive CdnCode')
 reg('message_type_try_read', ['C16', 'C05'], 'MessageType::try_read through the real phf table: all 65536 codes x 0..4 surplus octets',
-    fn='message::avp::types::message_type::MessageType::try_read', secondary=['C20', 'C08', 'C15', 'C10'])
+    fn='message::avp::types::message_type::MessageType::try_read', secondary=['C20', 'C08', 'C15', 'C10', 'C13', 'C01'])
 reg('message_type_write', ['C16', 'C06'], 'MessageType encoder: each of the 14 named values (reached through its RFC number) encodes to attribute type 0 + that number; get_length',
     fn='message::avp::types::message_type::<MessageType as WritableAVP>::write', secondary=['C03', 'C10', 'C07'])
-reg('message_type_try_read_short', ['C05'], 'MessageType::try_read with < 2 octets', fn='message::avp::types::message_type::MessageType::try_read', secondary=['C20', 'C01'])
+reg('message_type_try_read_short', ['C05'], 'MessageType::try_read with < 2 octets', fn='message::avp::types::message_type::MessageType::try_read', secondary=['C20', 'C01', 'C13'])
 reg('message_type_try_read_symreader', ['C02'], 'MessageType::try_read against any conforming reader: unchecked-call preconditions, all lengths',
-    fn='message::avp::types::message_type::MessageType::try_read', secondary=['C01'])
+    fn='message::avp::types::message_type::MessageType::try_read', secondary=['C01', 'C13'])
 reg('bitmask_framing_capabilities', ['C17'], 'FramingCapabilities: new->accessors on bool^2; decode->encode and accessors on all u32')
 reg('bitmask_bearer_capabilities', ['C17'], 'BearerCapabilities: new->accessors on bool^2; decode->encode and accessors on all u32')
 reg('bitmask_bearer_type', ['C17'], 'BearerType: new->accessors on bool^2; decode->encode and accessors on all u32')
@@ -56,7 +56,7 @@ reg('vec_writer_write_bytes_at', ['C18'], 'write_bytes_at overwrites in place, l
     complete=False, bound='buffer <= 16 octets, patch <= 4 octets', secondary=['C09', 'C06', 'C07'])
 reg('vec_writer_write_bytes_at_refuses_outside', ['C18'], 'write_bytes_at outside the written data panics', fn='common::vec_writer::<VecWriter as Writer>::write_bytes_at',
     complete=False, bound='buffer <= 16 octets, patch <= 4 octets', secondary=['C09', 'C07'])
-reg('accm_try_read_symreader', ['C02', 'C05'], 'Accm::try_read against any conforming reader, all lengths', fn='message::avp::types::accm::Accm::try_read', secondary=['C01', 'C20'])
+reg('accm_try_read_symreader', ['C02', 'C05'], 'Accm::try_read against any conforming reader, all lengths', fn='message::avp::types::accm::Accm::try_read', secondary=['C01', 'C20', 'C13'])
 reg('accm_try_read_values', ['C05'], 'Accm::try_read values / write, 10..12 octets', fn='message::avp::types::accm::Accm::try_read', secondary=['C03', 'C06', 'C10'])
 
 
@@ -111,9 +111,12 @@ def make_scratch(repo, scratch):
     os.makedirs(scratch)
     subprocess.check_call(['rsync', '-a', '--exclude', 'target', '--exclude', '.git', repo + '/', scratch + '/'])
     avp = os.path.join(scratch, 'src', 'message', 'avp.rs')
+    if not os.path.exists(avp):
+        avp = os.path.join(scratch, 'src', 'message', 'avp', 'mod.rs')
     s = open(avp).read()
     s += '\n#[cfg(kani)]\nmod vf_kani;\n'
     open(avp, 'w').write(s)
+    os.makedirs(os.path.join(scratch, 'src', 'message', 'avp'), exist_ok=True)
     import spec_table
     twin_src, _ = spec_table.kani_twins()
     body = open(os.path.join(HERE, 'kani', 'vf_kani.rs')).read() + twin_src
@@ -157,6 +160,15 @@ def parse_kani(out, names):
             if failed and all('unwinding assertion' in x for x in failed):
                 # the bound was too small for the (changed) code: nothing was refuted
                 status = 'UNDETERMINED-UNWIND'
+        if status == 'SUCCESSFUL' and 'refuses' in name:
+            # `#[kani::should_panic]` succeeds if SOME input panics; the refusal must hold for EVERY input of the harness:
+            # the cover placed after the refused call has to be unreachable
+            mc = re.search(r'\*\* (\d+) of (\d+) cover properties satisfied', ch)
+            if not mc:
+                status = 'UNKNOWN'
+            elif int(mc.group(1)) > 0:
+                status = 'FAILED'
+                ch += '\nFailed Checks: the refused call returns for some input of the harness (cover after the call is reachable)'
         mt = re.search(r'Verification Time: ([0-9.]+)s', ch)
         res[name] = {'status': status, 'output': ch[-6000:], 'time_s': float(mt.group(1)) if mt else None}
     return res
@@ -167,7 +179,15 @@ def run(hs, repo, workdir, tier):
     scratch = '/tmp/vf_kani_%d' % os.getpid()
     result = {'harnesses': [], 'build_error': None, 'wall': 0}
     try:
-        make_scratch(repo, scratch)
+        try:
+            make_scratch(repo, scratch)
+        except (OSError, subprocess.CalledProcessError) as e:
+            result['build_error'] = 'the Kani scratch copy could not be prepared for this tree (layout changed?): %r' % (e,)
+            for h in hs:
+                h = dict(h)
+                h.update({'status': 'NOT-RUN', 'output': '', 'time_s': None})
+                result['harnesses'].append(h)
+            return result
         env = dict(os.environ)
         env['CARGO_NET_OFFLINE'] = 'true'
         env['CARGO_TARGET_DIR'] = os.path.join(scratch, 'target')
